@@ -71,7 +71,7 @@ def load_known():
 # ----------------------------------------------------------------------------------------------
 # reflective-checker properties (C08, C07, C05): shared flow
 # ----------------------------------------------------------------------------------------------
-def reflective(prop, tier, seed, oracle_module, level_note, extra_obligations=None, ncorr=None, oracle_args=None, gprops=True, seq_obligations=None, theorems=None, theory_obligations=None):
+def reflective(prop, tier, seed, oracle_module, level_note, extra_obligations=None, ncorr=None, oracle_args=None, gprops=True, seq_obligations=None, theorems=None, theory_obligations=None, gprops_from=None):
     t0 = time.time()
     problems = []       # broken obligations / correspondences (strings)
     with coqbuild.Lock():
@@ -93,6 +93,11 @@ def reflective(prop, tier, seed, oracle_module, level_note, extra_obligations=No
             if not r['ok']:
                 problems.append('generated model %s does not compile: %s' % (r['file'], r['out'][-800:]))
         obl = []
+        for (gp, progs_) in (gprops_from or []):
+            pp = run(['python3', os.path.join(HERE, 'mkprops.py'), gp])
+            if pp.returncode != 0:
+                problems.append('mkprops %s: %s' % (gp, (pp.stdout + pp.stderr)[-800:]))
+            obl += ['gprops/%s_%s.v' % (gp, x) for x in progs_]
         if gprops:
             obl = sorted('gprops/' + f for f in os.listdir(os.path.join(COQ, 'gprops')) if f.startswith(prop + '_') and f.endswith('.v'))
         if extra_obligations:
@@ -290,13 +295,39 @@ def check_C13(tier, seed):
                                 'Quadrant.counter_mod4', 'Quadrant.counter_mirror', 'Quadrant.counter_reverse', 'Quadrant.counter_winding', 'Quadrant.counter_rotate'])
 
 
+def check_C09(tier, seed):
+    return reflective('C09', tier, seed, 'oracle_C09',
+                      'Proved on the regenerated programs (init_axis, r1_diagnostics, calculate_grad_B_tensor, Bfield_cylindrical, grad_B_tensor_cartesian, _residual) '
+                      'sharing one object state, for every index type: in the CONTINUUM model (d/dphi a derivation) the tensor is trace-free and its antisymmetric part is '
+                      '2*sG*spsi*I2 (the latter from the sigma equation); algebraically (every linear operator) its contraction with X1 n + Y1 b is the first-order field '
+                      'vector of Bfield_cylindrical in Frenet components, sG*B0*B1_t = B0^2*etabar*cos(theta) (|B| to first order), the Cartesian tensor is Q T Q^T with '
+                      'equal Frobenius norm, the cylindrical Frobenius norm equals grad_B_colon_grad_B for an orthonormal frame, L_grad_B = B0*sqrt(2/||grad B||^2). '
+                      'Hypotheses: admissibility (sG^2 = spsi^2 = 1, non-vanishing curvature/etabar/B0/...), the sigma equation holds at the returned solution, orthonormal frame (C03). '
+                      'NOT proved: size of the discrete trace / curl defect (discretisation), min_L_grad_B (spectral-minimum oracle).',
+                      gprops=False, seq_obligations=['props/C09_spec.v', 'props/C09.v'], ncorr=(8 if tier == 'quick' else 48),
+                      theorems=['C09_trace_free_h0', 'C09_trace_free_hN', 'C09_curl_h0', 'C09_curl_hN', 'C09_contraction_h0', 'C09_contraction_hN', 'C09_magnitude',
+                                'C09_cartesian_rotated', 'C09_frobenius_cartesian', 'C09_frobenius_frenet', 'C09_scale_length'])
+
+
+def check_C19(tier, seed):
+    sh = ['calculate_shear_sym', 'calculate_shear_nonsym']
+    return reflective('C19', tier, seed, 'oracle_C19',
+                      'Proved by the reflective checkers on both branches of the regenerated calculate_shear: iota2 has dimension length^-2 field^0 '
+                      '(every grid size and input, incl. B0**0.25 and the reduced solve / trapezoid oracles through their defining equations); iota2 changes sign under mirror '
+                      '(both branches) and under toroidal reversal (symmetric branch; the non-symmetric branch uses varphi, which has no pointwise reversal law). '
+                      'REFUTED on the real code and recorded as known findings: invariance under field reversal, independence of the toroidal origin for '
+                      'non-symmetric input. Harness only: field-period representation, continuity under infinitesimal symmetry breaking (jump <= 50/nphi^2), convergence in nphi.',
+                      gprops=False, gprops_from=[('C08', sh), ('C07', sh)], ncorr=(8 if tier == 'quick' else 40),
+                      theorems=['C08_calculate_shear_sym', 'C08_calculate_shear_nonsym', 'C07_M_calculate_shear_sym', 'C07_T_calculate_shear_sym', 'C07_M_calculate_shear_nonsym'])
+
+
 # hand-written theories each check depends on (others are not built, so work in progress elsewhere cannot disturb it)
 NEEDS = {
     'C08': ['Expr', 'Equiv', 'Dim'], 'C07': ['Expr', 'Equiv', 'Sign'], 'C05': ['Expr', 'Equiv', 'Shift'],
-    'C04': ['Expr', 'Shallow'], 'C11': ['Expr', 'Shallow'], 'C13': ['Expr', 'Shallow', 'Quadrant'], 'C02': ['Expr', 'Shallow', 'Newton'],
+    'C04': ['Expr', 'Shallow'], 'C11': ['Expr', 'Shallow'], 'C13': ['Expr', 'Shallow', 'Quadrant'], 'C19': ['Expr', 'Equiv', 'Dim', 'Sign'], 'C09': ['Expr', 'Shallow'], 'C03': ['Expr', 'Shallow'], 'C10': ['Expr', 'Shallow'], 'C01': ['Expr', 'Shallow', 'Series'], 'C02': ['Expr', 'Shallow', 'Newton'],
     'C20': ['Expr', 'Equiv', 'Sign', 'Shift', 'DiffMat', 'Newton', 'Bracket'],
 }
-CHECKS = {'C13': check_C13, 'C11': check_C11, 'C02': check_C02, 'C20': check_C20, 'C04': check_C04, 'C08': check_C08, 'C07': check_C07, 'C05': check_C05}
+CHECKS = {'C19': check_C19, 'C09': check_C09, 'C13': check_C13, 'C11': check_C11, 'C02': check_C02, 'C20': check_C20, 'C04': check_C04, 'C08': check_C08, 'C07': check_C07, 'C05': check_C05}
 
 
 def main():
@@ -308,7 +339,7 @@ def main():
     seed = int(os.environ.get('VERIF_SEED', '20240930'))
     if a.replay:
         rep = json.load(open(a.replay))
-        mod = {'C08': 'oracle_C08', 'C07': 'oracle_sym', 'C05': 'oracle_sym', 'C04': 'oracle_C04', 'C02': 'oracle_C02', 'C20': 'kernels', 'C11': 'oracle_C11', 'C13': 'oracle_C13'}.get(a.prop)
+        mod = {'C08': 'oracle_C08', 'C07': 'oracle_sym', 'C05': 'oracle_sym', 'C04': 'oracle_C04', 'C02': 'oracle_C02', 'C20': 'kernels', 'C11': 'oracle_C11', 'C13': 'oracle_C13', 'C09': 'oracle_C09', 'C19': 'oracle_C19'}.get(a.prop)
         res = harness(mod, (['--prop', a.prop] if mod == 'oracle_sym' else []) + ['--mode', 'replay', '--file', a.replay])
         print(json.dumps(res, indent=1))
         return 1 if res.get('violations') else 0
